@@ -676,6 +676,9 @@ impl Server {
         
         // First phase: read and parse with the lock
         let read_result = self.connections.with_connection(id, |conn| -> Result<()> {
+            // Requests that were waiting behind a blocking command come first
+            frames_to_process.extend(conn.deferred_frames.drain(..));
+            
             // Try to flush any pending writes first to avoid buffer buildup
             if conn.has_pending_writes() {
                 match conn.flush() {
@@ -780,7 +783,8 @@ impl Server {
         // Second phase: process frames without the lock
         let mut responses = Vec::new();
         let mut needs_immediate_flush = false; // Track if any command needs immediate response
-        for frame in frames_to_process {
+        let mut frames_iter = frames_to_process.into_iter();
+        while let Some(frame) = frames_iter.next() {
             // Process each frame and increment command counter
             self.stats.total_commands_processed.fetch_add(1, Ordering::Relaxed);
             
@@ -864,6 +868,18 @@ impl Server {
                 }
             };
             responses.push(response);
+            
+            // A command that has blocked the connection stops the batch: what follows it in
+            // the same read is processed once the connection is unblocked, in order, like the
+            // requests that arrive later (they would otherwise run on a blocked connection,
+            // and a second blocking command would overwrite the first one's state)
+            if self.is_connection_blocked(id) {
+                let rest: Vec<RespFrame> = frames_iter.by_ref().collect();
+                if !rest.is_empty() {
+                    self.connections.with_connection(id, |conn| conn.deferred_frames.extend(rest));
+                }
+                break;
+            }
         }
         
         if let Some(msg) = protocol_error {
